@@ -94,6 +94,12 @@ def impl_run(c):
     from resonaate.estimation.sequential_filter import FilterFlag
 
     f = build(c)
+    # a second multiple-model filter in the same interpreter (another target in multiple-model estimation), updated right after this one at every
+    # step: what this filter holds must still be what it computed
+    g = None
+    if c.get("companion"):
+        shifted = [[{**st_, "pred_x": [x + 5 for x in st_["pred_x"]], "est_x": [x + 5 for x in st_["est_x"]]} for st_ in m] for m in c["models"]]
+        g = build({**c, "models": shifted})
     steps = []
     for k in range(c["steps"]):
         before_ids = [m.mid for m in f.models]
@@ -116,6 +122,14 @@ def impl_run(c):
             "closed": closed,
             "k": k,
         }
+        if g is not None:
+            held = (f.est_x, f.pred_x, f.est_p)
+            try:
+                g.update(["obs"] if observed else [])
+            except Exception:  # noqa: BLE001  (the companion's own fate is not under test)
+                g = None
+            st["after_companion"] = {"est_x": [float(x) for x in held[0]], "est_p": [[float(x) for x in r] for r in held[2]],
+                                     "cf_est_x": [float(x) for x in f.converged_filter.est_x] if closed else None}
         if closed:
             cf = f.converged_filter
             st["cf_est_x"] = [float(x) for x in cf.est_x]
@@ -209,7 +223,7 @@ def cases(run: Run):
             w0 = [Fraction(x, sum(raw)) for x in raw]
         out.append(
             {
-                "kind": kind, "n": n, "ydim": ydim, "pattern": pattern, "steps": steps, "models": models, "w0": w0, "regime": regime,
+                "kind": kind, "n": n, "ydim": ydim, "pattern": pattern, "steps": steps, "models": models, "w0": w0, "regime": regime, "companion": rng.random() < 0.4,
                 # steps without observations in between (static multiple model only): predict, then update with nothing
                 "observed": [True] + [not (kind == "smm" and rng.random() < 0.35) for _ in range(steps - 1)],
                 "thr": rng.choice([Fraction(1, 10**10), Fraction(1, 100), Fraction(1, 20), Fraction(1, 5), Fraction(2, 5)]),
@@ -339,6 +353,10 @@ def oracle(run: Run, c, impl):
         corr = ((ep + ep.T) / 2) / (scale + 1e-300)
         if not (np.abs(ep - ep.T) <= 1e-9 * scale).all() or np.linalg.eigvalsh(corr).min() < -1e-6:
             fails.append((f"{kind}:cov-psd", f"step {k}: est_p not symmetric positive semi-definite"))
+            break
+        ac = st.get("after_companion")
+        if ac is not None and (ac["est_x"] != st["est_x"] or ac["est_p"] != st["est_p"]):
+            fails.append((f"{kind}:aliased", f"step {k}: after another multiple-model filter was updated, this filter's combined estimate changed from {st['est_x'][:3]} to {ac['est_x'][:3]}"))
             break
         if st["closed"]:
             run.count(f"{kind}:closed")
